@@ -132,24 +132,15 @@ CLAIMED["C13"] = {
 }
 CLAIMED["C17"] = {
     "text": "Time/Frequency: theorem tf_expanded_sem (for every valid MOC the expansion is canonical and covers exactly the cells equal or adjacent to a cell of M, clipped to the "
-            "domain), theorem tf_contracted_range (repaired contraction, range by range), a proved counterexample for the original formula; the definition "
-            "contracted = not(expanded(not M)) is evaluated by the model on every generated case and compared with the code. A genuine defect (T/F contracted shrinking at the domain "
-            "bounds) was found and repaired. Partial: HEALPix expansion/borders/splitting/hole filling depend on the neighbour geometry of cdshealpix and are checked against an "
-            "independent brute-force oracle at depths 0-2 (test level), not proved.",
+            "domain), theorem tf_contracted_range (repaired contraction, range by range), a proved counterexample for the original formula; the definition contracted = not(expanded(not M)) is "
+            "evaluated by the model on every generated case. Space: model of expansion, contraction, external / internal border and splitting over an adjacency relation GIVEN AS DATA, with "
+            "theorems for EVERY adjacency and cell set: expansion = cells equal or adjacent to a cell of M; contraction = cells of M no cell outside M is adjacent to; borders; splitting returns "
+            "a correct partition (each part = the component of one of its cells: inside the set, closed, every cell reachable; parts cover the set, are pairwise disjoint and separated). The real "
+            "operations on HEALPix MOCs (depths 0-2, mixed-depth shapes) are compared with the model over the cdshealpix neighbour lists. A genuine defect (T/F contracted at the domain bounds) "
+            "was repaired. Partial: the HEALPix geometry is the trusted parameter; fill_holes is checked against a brute-force oracle only (test level).",
     "design_ref": "DESIGN.md §4 C17, §10",
-    "note": TB + "; cdshealpix neighbours trusted as the definition of adjacency for the space oracle",
-    "technique": "Lean 4 proof (T/F) + differential correspondence + independent oracle for the space part",
-}
-CLAIMED["C19"] = {
-    "text": "Model of what `moc op` builds (two FITS streams, ConvertIterator on the narrower operand, the lazy operator, the writer). Theorems: for EVERY pair of canonical inputs of any two index "
-            "widths and every consistent hint behaviour of the streams, the stream handed to the writer is canonical, has consistent hints and covers exactly the set-theoretic result "
-            "(cli_op2_sem); expressed in the common 64-bit index space the result depends only on the two input sets, not on the stored widths (cli_op2_width_independent); complement and degrade; "
-            "convert and `from timestamp` rest on the re-exported C07 / C18 theorems. Tied to the code by driving the rebuilt `moc` binary: all width pairs x operations x output formats, all convert "
-            "pairs, `from` on timestamps / time ranges / positions, and invalid inputs (exit status + message, never exit 101). Two defects repaired (todo!() panics; out-of-range depth panics), two "
-            "recorded as open findings (truncated FITS data accepted silently; unparsable `from` lines skipped silently). Partial: geometry sub-commands, filter/view/info and ST variants are not driven.",
-    "design_ref": "DESIGN.md §4 C19, §10",
-    "note": TB + "; clap argument parsing and cdshealpix hash outside the model",
-    "technique": "Lean 4 proof (composition of the C01/C04 lazy-operator theorems with the width-conversion lemmas) + differential correspondence driving the real binary + exit-status checks on invalid inputs",
+    "note": TB + "; cdshealpix neighbours trusted as the definition of adjacency",
+    "technique": "Lean 4 proof (T/F arithmetic; flood-fill correctness over an abstract adjacency) + differential correspondence + independent oracle for fill_holes",
 }
 CLAIMED["C20"] = {
     "text": "Integer model of valued_cells_to_moc_with_opt and its four descents (asserts as faults), in exact agreement with the f64 code on dyadic maps for all 16 option "
